@@ -521,8 +521,8 @@ def caughtList (P : Params σ) (s : St σ) : List Pkt → List (Option PyErr)
 
 /-- `packet_isserver(packet, dcid)`; `fromClientAddr` = `packet.ip_src == self.client_ip and packet.sport == self.client_port` -/
 def packetIsServer (s : St σ) (fromClientAddr : Bool) (dcid : Bytes) : Bool :=
-  if dcid.length > 0 ∧ dcid ∈ s.serverCids then false
-  else if dcid.length > 0 ∧ dcid ∈ s.clientCids then true
+  if dcid.length > 0 ∧ dcid ∈ s.serverCids ∧ dcid ∉ s.clientCids then false
+  else if dcid.length > 0 ∧ dcid ∈ s.clientCids ∧ dcid ∉ s.serverCids then true
   else if fromClientAddr then false
   else true
 
